@@ -559,6 +559,9 @@ class Interp:
         if k == "ref":
             return self.match_pat(p["pat"], v)
         if k == "tuple":
+            if isinstance(v, VUninit) or (isinstance(v, VUnit) and p["elems"]):
+                # value of an unreachable path (every branch that produced it has returned): names stay uninitialised
+                return T, {n: VUninit() for n in pat_names(p)}
             if not isinstance(v, VTuple) or len(v.items) != len(p["elems"]):
                 raise Unsupported("tuple pattern mismatch")
             conds, binds = [], {}
@@ -1769,6 +1772,22 @@ def m_iter_filter(I, it, args, pc, e):
     return VCount(n)
 
 
+def m_vec_insert(I, v, args, pc, e):
+    """Vec::insert(index, item) at a possibly symbolic index (panics when index > len)"""
+    idx, item = args[0].e, args[1]
+    I.panic(z3.And(pc, ugt(idx, v.n)), "Vec::insert index out of bounds at line %s" % e.get("line"))
+    items = []
+    for j in range(len(v.items) + 1):
+        here = item
+        if j < len(v.items):
+            cur = v.items[j]
+            here = ite(idx == bv(j), item, cur)
+        if j > 0:
+            here = ite(ult(idx, bv(j)), v.items[j - 1], here)
+        items.append(here)
+    return Effects(VUnit(), recv=VVec(items, v.n + bv(1)))
+
+
 def m_vec_len(I, v, args, pc, e):
     return VInt(v.n)
 
@@ -2090,6 +2109,7 @@ METHODS = {
     ("VStr", "replace"): m_replace,
     ("VStr", "to_string"): m_ident,
     ("VStr", "to_owned"): m_ident,
+    ("VStr", "into_owned"): m_ident,
     ("VStr", "as_str"): m_ident,
     ("VStr", "as_ref"): m_ident,
     ("VStr", "as_bytes"): m_ident,
@@ -2122,6 +2142,7 @@ METHODS = {
     ("VIter", "count"): m_count,
     ("VIter", "filter"): m_iter_filter,
     ("VVec", "len"): m_vec_len,
+    ("VVec", "insert"): m_vec_insert,
     ("VVec", "iter"): m_vec_iter,
     ("VVec", "into_iter"): m_vec_iter,
     ("VVec", "last"): m_vec_last,
